@@ -605,6 +605,7 @@ func (t *tXn) truncate(methods []string) {
 			nr[i].wildcardChildIndex = -1
 		}
 		t.root = nr
+		t.size = 0
 		return
 	}
 
@@ -617,6 +618,7 @@ func (t *tXn) truncate(methods []string) {
 		if idx < 0 {
 			continue
 		}
+		t.size -= countRoutes(nr[idx])
 		if !isRemovable(method) {
 			nr[idx] = new(node)
 			nr[idx].key = commonVerbs[idx]
@@ -678,6 +680,16 @@ func getRouteConflict(n *node) []string {
 		routes = append(routes, it.current.route.pattern)
 	}
 	return routes
+}
+
+// countRoutes returns the number of routes registered under n.
+func countRoutes(n *node) int {
+	count := 0
+	it := newRawIterator(n)
+	for it.hasNext() {
+		count++
+	}
+	return count
 }
 
 func isRemovable(method string) bool {
